@@ -1093,7 +1093,9 @@ func poolInputs(r *rand.Rand) (lazyproto.Def, [][]byte) {
 	badNested = append(badNested, mk(0, 0, 1, false)...)
 	ins := [][]byte{
 		mk(0, 0, 0, false), mk(1, 0, 0, false), mk(3, 1, 0, false), mk(0, 3, 2, false),
-		mk(1, 1, 3, false), mk(5, 0, 5, true), mk(2, 2, 1, false), badNested, {0x08}, // last one: malformed (truncated)
+		mk(1, 1, 3, false), mk(5, 0, 5, true), mk(2, 2, 1, false), badNested,
+		// malformed: requested fields first, then a truncated tail (the decode fails after values were captured), and a bare truncated key
+		append(mk(3, 2, 1, false), 0x08, 0x80), {0x08},
 	}
 	return def, ins
 }
@@ -1245,7 +1247,7 @@ func famConc(G, iters int, own bool, procs int, seed int64) {
 				c.reset()
 				for it := 0; it < iters; it++ {
 					_, ins := poolInputs(r)
-					in := ins[r.Intn(len(ins)-1)]
+					in := ins[r.Intn(len(ins))] // including the malformed ones: a failed decode must not leave anything behind in the pool
 					h := c.decodeObj(dec, def, in, o.mode, o.name)
 					if !h.live {
 						continue
